@@ -120,8 +120,22 @@ def gen_one(world, tier, rng, faults=True):
       lit_ = rng.choice([[gen_literal(rng, 2), gen_literal(rng, 2)],
                          {'a': gen_literal(rng, 2), 'b': gen_literal(rng, 2)},
                          [gen_literal(rng, 2)]])
+      if rng.random() < 0.6:
+        pending.append({'set': rng.randrange(10 ** 6), 'lit': repr(gen_literal(rng, 2)), 'src': 1,
+                        'via': rng.choice(['dict', 'str']), 'under_prev': 1})
       pending.append({'set': rng.randrange(10 ** 6), 'lit': repr(lit_), 'src': 1,
-                      'via': rng.choice(['dict', 'str']), 'container': 1})
+                      'via': rng.choice(['dict', 'str']), 'container': 1,
+                      'pre_lit': repr(gen_literal(rng, 2)) if rng.random() < 0.7 else None})
+      if rng.random() < 0.8:
+        pending.append({'set': rng.randrange(10 ** 6), 'lit': repr(gen_literal(rng, 2)), 'src': 1,
+                        'via': rng.choice(['dict', 'str']), 'under_prev': 1})
+        if rng.random() < 0.6:
+          lit2 = rng.choice([[gen_literal(rng, 2), gen_literal(rng, 2), gen_literal(rng, 2)],
+                             {'a': gen_literal(rng, 2), 'c': gen_literal(rng, 2)}])
+          pending.append({'set': rng.randrange(10 ** 6), 'lit': repr(lit2), 'src': 1,
+                          'via': rng.choice(['dict', 'str']), 'container': 1, 'again': 1})
+          pending.append({'set': rng.randrange(10 ** 6), 'lit': repr(gen_literal(rng, 2)), 'src': 1,
+                          'via': rng.choice(['dict', 'str']), 'under_prev': 1})
     elif r < 0.35:
       pending.append({'set': rng.randrange(10 ** 6), 'lit': repr(gen_literal(rng)), 'src': 1,
                       'via': rng.choice(['dict', 'str'])})
@@ -528,13 +542,46 @@ def run(case):
             # the override replaces the whole CONTAINER that holds the chosen
             # leaf (element overrides before and after it address its entries)
             cands = [p_ for p_ in paths if p_.endswith(']')]
-            if not cands:
-              continue
-            path = cands[d['set'] % len(cands)]
-            path = path[:path.rindex('[')]
+            if d.get('again') and getattr(fs, 'last_container', None):
+              # the same container is replaced once more
+              if not any(p_ == fs.last_container or p_.startswith(fs.last_container + '[')
+                         for p_ in paths):
+                continue
+              path = fs.last_container
+              leaf_ = None
+            elif not cands:
+              # no container yet: a plain argument of the root becomes one
+              plain = [p_ for p_ in paths if '[' not in p_ and '.' not in p_ and p_ not in ('uid', 'z')]
+              if not plain:
+                continue
+              path, leaf_ = plain[d['set'] % len(plain)], None
+            else:
+              leaf_ = cands[d['set'] % len(cands)]
+              path = leaf_[:leaf_.rindex('[')]
             if under_tuple(model, path) or not path:
               continue
+            if d.get('pre_lit') is not None and leaf_ is not None:
+              # first an override of one ENTRY of that container ...
+              pre = f'set:{leaf_}={d["pre_lit"]}'
+              exec('cfg' + accessor(leaf_) + ' = ' + d['pre_lit'], {'cfg': model})  # pylint: disable=exec-used
+              strs.append(pre)
             bump(probes, 'set_whole_container')
+            fs.last_container = path
+          elif d.get('under_prev') and getattr(fs, 'last_container', None):
+            # an ENTRY of the container that an earlier override replaced
+            # (a container of plain literals is printed as ONE leaf, so its entries
+            # are addressed from what the model holds there)
+            try:
+              obj_ = eval('cfg' + accessor(fs.last_container), {'cfg': model})  # pylint: disable=eval-used
+            except Exception:  # pylint: disable=broad-except
+              obj_ = None
+            if isinstance(obj_, dict) and obj_:
+              k_ = sorted(obj_, key=repr)[d['set'] % len(obj_)]
+              path = fs.last_container + f'[{k_!r}]'
+              bump(probes, 'set_entry_of_replaced_container')
+            elif isinstance(obj_, list) and obj_:
+              path = fs.last_container + f'[{d["set"] % len(obj_)}]'
+              bump(probes, 'set_entry_of_replaced_container')
           lit = d['lit'] if d.get('src') else repr(d['lit'])   # (source text: JSON-stable)
           directive = f'set:{path}={lit}'
           try:
